@@ -276,6 +276,8 @@ def random_case(rnd, cid):
             ops.append({'act': 'remove', 'p': p, 's': s, 'L': [], 'i': 0})
         elif r < 0.74 and cur[p]:
             i = rnd.randrange(len(cur[p]))
+            if rnd.random() < 0.3:
+                i -= len(cur[p])                            # the same position as a negative index
             cur[p].pop(i)
             ops.append({'act': 'pop', 'p': p, 's': '-', 'L': [], 'i': i})
         elif r < 0.8:
